@@ -142,15 +142,27 @@ type btCase struct {
 	Degree int      `json:"degree"`
 	Ops    []bop    `json:"ops"`
 	Obs    []string `json:"obs"`
+	Every  int      `json:"shape_every"` // the node structure is dumped after every Every-th operation (and the last)
+	shapes []string
 	maxLen int
+}
+
+func dumpTree(t *btree.BTree) string {
+	return t.VerifDump(func(i btree.Item) int64 { return int64(i.(btree.Int)) })
 }
 
 func genBT(r *rng.R, degree, nops, space, ranksEvery int) btCase {
 	t := btree.New(degree)
-	c := btCase{Kind: "bt", Degree: degree}
+	c := btCase{Kind: "bt", Degree: degree, Every: 1}
+	if nops > 400 {
+		c.Every = 50
+	}
 	step := func(o bop) {
 		c.Ops = append(c.Ops, o)
 		c.Obs = append(c.Obs, btExec(t, o))
+		if k := len(c.Ops) - 1; k%c.Every == 0 {
+			c.shapes = append(c.shapes, fmt.Sprintf("(%d%%nat, %s)", k, dumpTree(t)))
+		}
 		if t.Len() > c.maxLen {
 			c.maxLen = t.Len()
 		}
@@ -206,7 +218,7 @@ func (c btCase) coq() string {
 	for i, o := range c.Ops {
 		ops[i] = o.coq()
 	}
-	return fmt.Sprintf("CaseBT %d %s\n  %s", c.Degree, coqfmt.List(ops), coqfmt.List(c.Obs))
+	return fmt.Sprintf("CaseBT %d %s\n  %s\n  %s", c.Degree, coqfmt.List(ops), coqfmt.List(c.Obs), coqfmt.List(c.shapes))
 }
 
 // ---------------------------------------------------------------------------------------------
@@ -757,7 +769,7 @@ func main() {
 		"(inverted/empty ranges, duplicate stores or peer ids, learner/unknown/nil leader); non-trivial = at least one put that displaced an overlapped " +
 		"region, one in-place update of a cached id and one removal; distinct by sha256 of the canonical (ops,obs) text"
 	cf := &coqfmt.CaseFile{Dir: *out, Prefix: "C07", PerFile: 20,
-		Header: "From Coq Require Import String.\nFrom PDV Require Import lib.Base lib.C07_Key model.C07_BTreeSpec model.C07_Region.\nLocal Open Scope Z_scope.\n",
+		Header: "From Coq Require Import String.\nFrom PDV Require Import lib.Base lib.C07_Key model.C07_BTreeSpec model.C07_BTree model.C07_Region.\nLocal Open Scope Z_scope.\n",
 		Type:   "ccase",
 		Footer: "Definition M := Eval vm_compute in map fst (mismatches cases).\nDefinition D := Eval vm_compute in hd_error (mismatches cases).\nDefinition V := Eval vm_compute in monitor_fails cases.\nOpen Scope string_scope.\nPrint M. Print D. Print V.\n"}
 
@@ -821,8 +833,14 @@ func main() {
 				}
 				t := btree.New(c.Degree)
 				c.Obs = nil
-				for _, o := range c.Ops {
+				if c.Every <= 0 {
+					c.Every = 1
+				}
+				for k, o := range c.Ops {
 					c.Obs = append(c.Obs, btExec(t, o))
+					if k%c.Every == 0 {
+						c.shapes = append(c.shapes, fmt.Sprintf("(%d%%nat, %s)", k, dumpTree(t)))
+					}
 				}
 				emitBT(c)
 			} else {
